@@ -74,6 +74,10 @@ func newOracleEnv(powers []int64, pairs []string) *OracleEnv {
 	l2 := o.L2
 	res := l2.Deliver(opchildtypes.NewMsgSetBridgeInfo(o.Executors[0].String(), o.BridgeInfo(o.ClientID, true)))
 	if res.Class != sim.OK {
+		// see newL2Env: which executor is refused is judged by the authorisation monitors, not by the setup
+		res = l2.Deliver(opchildtypes.NewMsgSetBridgeInfo(o.Executors[1].String(), o.BridgeInfo(o.ClientID, true)))
+	}
+	if res.Class != sim.OK {
 		panic(res.ErrString())
 	}
 	l2.OK.InitGenesis(l2.Ctx, oracletypes.GenesisState{CurrencyPairGenesis: []oracletypes.CurrencyPairGenesis{}})
